@@ -85,6 +85,11 @@ theorem maskSift_cap_prefix (M : List Sig → Sig → Option (Sig × Bool)) (thr
   | none => simp [effCap] at *; omega
   | some m => simp only [effCap_eq_min] at *; omega
 
+/-- every masked component is a [samples]-long column (masked extraction meeting the contract `PeelOK`) -/
+theorem maskSift_col_lengths (M : List Sig → Sig → Option (Sig × Bool)) (thr : Rat) (cap : Nat) (nf : Option Nat)
+    (x : Sig) (fuel : Nat) (hM : PeelOK M x.length) : ∀ c ∈ (maskSift M thr cap nf x fuel).1, c.length = x.length :=
+  peelLoop_lengths M thr _ x hM fuel [] x (resid_nil x).symm (by simp)
+
 /-! ### ensemble sift -/
 
 /-- The ensemble result is exactly as wide as its widest member … -/
@@ -133,6 +138,21 @@ theorem ceemd_cols_le_cap (Nx : List Sig → Sig → Sig) (thr : Rat) (x : Sig) 
     · obtain ⟨t, ht⟩ := ceemdLoop_prefix Nx thr (some k) x fuel [Nx [] x]
       rw [← ht]; simp
     · exact ceemdLoop_le_cap Nx thr x k fuel [Nx [] x] (by simp; omega)
+
+/-- every complete-ensemble component is a [samples]-long column when the ensemble step (mean of first IMFs of
+    residual ± noise) returns [samples]-long columns -/
+theorem ceemd_col_lengths (Nx : List Sig → Sig → Sig) (thr : Rat) (cap : Option Nat) (x : Sig) (fuel : Nat)
+    (hN : ∀ cols p, p.length = x.length → (Nx cols p).length = x.length) :
+    ∀ c ∈ (ceemd Nx thr cap x fuel).1, c.length = x.length := by
+  have h0 : ∀ c ∈ [Nx [] x], c.length = x.length := by
+    intro c hc; simp only [List.mem_singleton] at hc; subst hc; exact hN [] x rfl
+  unfold ceemd
+  simp only []
+  split
+  · split
+    · exact h0
+    · exact ceemdLoop_lengths Nx thr _ x hN fuel _ h0
+  · exact ceemdLoop_lengths Nx thr _ x hN fuel _ h0
 
 /-! ### second layer -/
 
